@@ -114,8 +114,18 @@ def eval_call_args(path, fname, argtext):
         return d
 
     ns["__capture"] = capture
+
+    def jsonable(v):
+        # bytes survive the JSON witness file as a tagged hex string (vf.replay_worker turns them back)
+        if isinstance(v, (bytes, bytearray)):
+            return {"__bytes__": bytes(v).hex()}
+        if isinstance(v, (list, tuple)):
+            return [jsonable(x) for x in v]
+        if isinstance(v, dict):
+            return {k: jsonable(x) for k, x in v.items()}
+        return v
     try:
-        return eval("__capture(%s)" % argtext, ns)
+        return jsonable(eval("__capture(%s)" % argtext, ns))
     except Exception:
         return None
 
